@@ -265,6 +265,56 @@ theorem ss4 (hL : 1 ≤ L) (h4x : ((bx - ax) % (8 * (L : Int))) % 4 = 0)
   generalize (by' - ay) % (8 * (L : Int)) = ey at *
   omega
 
+/-! corners of a square `a` in an octagon `b` (used by the rank certificate) -/
+
+theorem so1 (hL : 1 ≤ L) (h4x : ((bx - ax) % (8 * (L : Int))) % 4 = 0)
+    (h4y : ((by' - ay) % (8 * (L : Int))) % 4 = 0) :
+    [(ax + -1) % (8 * (L : Int)), (ay + -1) % (8 * (L : Int))] ∈ ocC L bx by' ↔
+      (((bx - ax) % (8 * (L : Int)) = 8 * (L : Int) - 4 ∧ (by' - ay) % (8 * (L : Int)) = 0) ∨ ((bx - ax) % (8 * (L : Int)) = 0 ∧ (by' - ay) % (8 * (L : Int)) = 8 * (L : Int) - 4)) := by
+  obtain ⟨c0, c2, c4, c6, n2, n4, n6⟩ := consts hL
+  unfold ocC
+  simp only [List.mem_cons, List.cons.injEq, and_true, List.not_mem_nil, or_false, emod_bridge,
+    Int.reduceSub, Int.reduceNeg]
+  generalize (bx - ax) % (8 * (L : Int)) = ex at *
+  generalize (by' - ay) % (8 * (L : Int)) = ey at *
+  omega
+
+theorem so2 (hL : 1 ≤ L) (h4x : ((bx - ax) % (8 * (L : Int))) % 4 = 0)
+    (h4y : ((by' - ay) % (8 * (L : Int))) % 4 = 0) :
+    [(ax + 1) % (8 * (L : Int)), (ay + 1) % (8 * (L : Int))] ∈ ocC L bx by' ↔
+      (((bx - ax) % (8 * (L : Int)) = 0 ∧ (by' - ay) % (8 * (L : Int)) = 4) ∨ ((bx - ax) % (8 * (L : Int)) = 4 ∧ (by' - ay) % (8 * (L : Int)) = 0)) := by
+  obtain ⟨c0, c2, c4, c6, n2, n4, n6⟩ := consts hL
+  unfold ocC
+  simp only [List.mem_cons, List.cons.injEq, and_true, List.not_mem_nil, or_false, emod_bridge,
+    Int.reduceSub, Int.reduceNeg]
+  generalize (bx - ax) % (8 * (L : Int)) = ex at *
+  generalize (by' - ay) % (8 * (L : Int)) = ey at *
+  omega
+
+theorem so3 (hL : 1 ≤ L) (h4x : ((bx - ax) % (8 * (L : Int))) % 4 = 0)
+    (h4y : ((by' - ay) % (8 * (L : Int))) % 4 = 0) :
+    [(ax + -1) % (8 * (L : Int)), (ay + 1) % (8 * (L : Int))] ∈ ocC L bx by' ↔
+      (((bx - ax) % (8 * (L : Int)) = 8 * (L : Int) - 4 ∧ (by' - ay) % (8 * (L : Int)) = 0) ∨ ((bx - ax) % (8 * (L : Int)) = 0 ∧ (by' - ay) % (8 * (L : Int)) = 4)) := by
+  obtain ⟨c0, c2, c4, c6, n2, n4, n6⟩ := consts hL
+  unfold ocC
+  simp only [List.mem_cons, List.cons.injEq, and_true, List.not_mem_nil, or_false, emod_bridge,
+    Int.reduceSub, Int.reduceNeg]
+  generalize (bx - ax) % (8 * (L : Int)) = ex at *
+  generalize (by' - ay) % (8 * (L : Int)) = ey at *
+  omega
+
+theorem so4 (hL : 1 ≤ L) (h4x : ((bx - ax) % (8 * (L : Int))) % 4 = 0)
+    (h4y : ((by' - ay) % (8 * (L : Int))) % 4 = 0) :
+    [(ax + 1) % (8 * (L : Int)), (ay + -1) % (8 * (L : Int))] ∈ ocC L bx by' ↔
+      (((bx - ax) % (8 * (L : Int)) = 0 ∧ (by' - ay) % (8 * (L : Int)) = 8 * (L : Int) - 4) ∨ ((bx - ax) % (8 * (L : Int)) = 4 ∧ (by' - ay) % (8 * (L : Int)) = 0)) := by
+  obtain ⟨c0, c2, c4, c6, n2, n4, n6⟩ := consts hL
+  unfold ocC
+  simp only [List.mem_cons, List.cons.injEq, and_true, List.not_mem_nil, or_false, emod_bridge,
+    Int.reduceSub, Int.reduceNeg]
+  generalize (bx - ax) % (8 * (L : Int)) = ex at *
+  generalize (by' - ay) % (8 * (L : Int)) = ey at *
+  omega
+
 end
 
 end Panqec.Color488Code
